@@ -244,8 +244,10 @@ def invalid_probe(S, fmt, ch, rate, mode, rng, cfg=None):
         if ch > 1:
             kinds += ["read 0 %s i %d" % (T, ch + 1), "write 0 %s i 1 gen zeros 1 0" % T, "write 0 %s i %d gen zeros 1 0" % (T, 2 * ch + 1)]
         kinds += ["read 0 %s f 2" % T if mode == "w" else "write 0 %s f 2 gen zeros 1 0" % T if mode == "r" else "seek 0 0 64"]
-    kinds += ["seek 0 0 3", "seek 0 -1 0", "seek 0 -9 1", "seek 0 1 2" if mode == "r" else "seek 0 -100 2", "seek 0 0 49", "seek 0 2 33" if mode == "r" else "seek 0 2 17" if mode == "w" else "seek 0 0 50",
+    kinds += ["seek 0 0 3", "seek 0 -1 0", "seek 0 -1000 1", "seek 0 1 2" if mode == "r" else "seek 0 -100 2", "seek 0 0 49", "seek 0 2 33" if mode == "r" else "seek 0 2 17" if mode == "w" else "seek 0 0 50",
               "trunc 0 -1", "cmd 0 12345678 0"]
+    if mode == "w" and not scen.is_granular(fmt):
+        kinds += ["seek 0 1000000 0", "seek 0 1000000 32"]      # a block encoder refuses these; the refusal must not touch what is pending
     for last in ("read", "write"):
         S.scn(fmt="0x%x" % fmt, ch=ch, T=T0, kind="invprobe", mode=mode, last=last, **(cfg or {}))
         S.add("file 1 new", "open 0 %s w 1 %d %d %d" % (rt, fmt, ch, rate), "write 0 %s f 24 gen %s %d %d" % (T0, cls, rng.randint(1, 10 ** 6), par), "close 0")
